@@ -6,6 +6,18 @@ PROPERTY = 'C06'
 COMPONENT = 'aperture'
 QUICK = dict(gen=1800)
 THOROUGH = dict(gen=20000)
+SOURCE_IMPORTS = ['ScalesModel.Model.Aperture']
+# the three-way decision of `_AdjustAperture`, translated from the current source on every run (harness/pytrans.py);
+# the obligation: the model's `AS.decision` is that decision applied to the model state, for every state and load
+SOURCE_SITES = [
+    dict(name='genAdjBranch', file='scales/loadbalancer/aperture.py', func='ApertureBalancerSink._AdjustAperture',
+         kind='branch', marker='aperture_load >= self._max_load',
+         varmap={'aperture_load': 'load', 'self._max_load': 'maxl', 'self._min_load': 'minl',
+                 'self._idle_endpoints': 'hasIdle', 'aperture_size': 'size', 'self._max_size': 'mx',
+                 'self._min_size': 'mn'},
+         params=['load : Rat', 'maxl : Rat', 'minl : Rat', 'hasIdle : Bool', 'size : Nat', 'mx : Nat', 'mn : Nat'],
+         obligation='open Scales.Aperture\ntheorem genAdjBranch_eq (cfg : Cfg) (a : AS) (avg : Rat) :\n    a.decision cfg avg =\n      (match genAdjBranch (apLoad cfg a.hs.size avg) cfg.maxLoad cfg.minLoad (!a.idle.isEmpty) a.hs.size\n          cfg.maxSize cfg.minSize with\n       | 0 => .expand\n       | 1 => .contract\n       | _ => .stay) := by\n  unfold AS.decision genAdjBranch\n  by_cases h1 : cfg.maxLoad ≤ apLoad cfg a.hs.size avg <;> by_cases h2 : a.idle = [] <;>\n    by_cases h3 : a.hs.size < cfg.maxSize <;> by_cases h4 : apLoad cfg a.hs.size avg ≤ cfg.minLoad <;>\n    by_cases h5 : cfg.minSize < a.hs.size <;> simp [h1, h2, h3, h4, h5, ge_iff_le, gt_iff_lt]\n'),
+]
 TRUSTED = ['harness channels / server set standing for the next sinks and the provider (harness/lbrun.py)',
            'random.choice / random.randint results are recorded from the run and passed to the model',
            'the EMA value of each _AdjustAperture call is taken from the real Ema.Update (exact rational of the float); '
